@@ -201,7 +201,13 @@ func (x *Explorer) sweepState(w *World, path []Event) {
 	for i, in := range ins {
 		x.res.Extra["sweep_pairs"]++
 		x.res.Extra["sweep/"+in.class]++
+		nv := len(w.viol)
 		key, msg := n.applySweep(in)
+		if len(w.viol) > nv {
+			// a panic or another monitor fired on the inadmissible input: reported through the normal channel
+			x.check(w, append(append([]Event{}, path...), Event{K: "sweep", N: n.id, A: i}))
+			return
+		}
 		if key == "" {
 			continue
 		}
